@@ -6,7 +6,10 @@ exactly one accumulate statement (N = the layout's N_CONSTRAINTS resp. MASK_SIZE
 layouts have no conditional statement, the dynamic layout's conditions are exactly its ten uses_*_builtin switches.
 Tie: translator regenerated every run + its Lean printer checked by DumpAst + evaluation agreement: the driver evaluates the translated
 program, hx calls the real eval_*_polynomial_inner, on random inputs, for all layouts.  Non-vanishing of every term ("not identically
-zero") is established at random points on the REAL code with unit coefficient vectors (a polynomial-identity test, labelled as such)."""
+zero") is a THEOREM: nonvanishing_<L> — on one witness input per program (proposed by tools/gen_witness.py, untrusted; for the dynamic layout
+with all ten builtins on) every coefficient position has an executed term with a non-zero value, by kernel evaluation of an efficient evaluator
+(Model/AstFast) proved equivalent to the executed-terms semantics (nzCount_sound).  It is ALSO tested at random points on the REAL code with
+unit coefficient vectors (which is what ties the statement to the Rust evaluators rather than to their translation)."""
 import json, os
 import framework as fw
 from framework import P, hexf, hexl
@@ -23,9 +26,9 @@ RULE = ('per layout and per evaluator (composition, DEEP): R random full inputs 
         'the real code; every unit coefficient vector e_i on the real code (value must be non-zero for every position of an enabled '
         'component; dynamic layout: the shipped instance and ~16 instances with other builtin switches — each alone, all, none, random subsets). R = 2 quick / 8 thorough. Whole eval_composition_polynomial (global-value assembly '
         'around the inner evaluator) on the shipped public input of every layout / dynamic instance with random interaction elements, mask, coefficients, point; trace sizes t, t+1, 2^12..2^30: model-vs-code. non-trivial = all.')
-ASSUMPTIONS = ['non-vanishing is tested at random points (Schwartz-Zippel), not proved',
+ASSUMPTIONS = ['non-vanishing is proved on the TRANSLATED programs (one kernel-checked witness point each); on the real code it is tested at random points with unit vectors',
                'dynamic layout instances: shipped parameters with builtin switches toggled (row ratios of newly enabled builtins set to 16)']
-TRUSTED = ['tools/gen_ast.py + tools/rustexpr.py (translator); DumpAst.lean printer check; Python additivity / non-zero oracle']
+TRUSTED = ['tools/gen_ast.py + tools/rustexpr.py (translator); DumpAst.lean printer check; Python additivity / non-zero oracle', 'tools/gen_witness.py only proposes witnesses: nothing it outputs is trusted (the kernel evaluates the programs on them)']
 META = None
 HX = None
 
